@@ -825,7 +825,7 @@ FixedVArray<T>::register_(const char* doc)
         .def(boost::python::init<const FixedArray<int> &, const T &>("Construct a variable array with each array size equal to the specified elements and initialized to the specified default value"))
         .def("__getitem__", &FixedVArray<T>::getslice)
         .def("__getitem__", &FixedVArray<T>::getslice_mask)
-        .def("__getitem__", &FixedVArray<T>::getitem, boost::python::with_custodian_and_ward_postcall<1,0>())
+        .def("__getitem__", &FixedVArray<T>::getitem, boost::python::with_custodian_and_ward_postcall<0,1>())
 
         .def("__setitem__", &FixedVArray<T>::setitem_scalar)
         .def("__setitem__", &FixedVArray<T>::setitem_scalar_mask)
